@@ -22,7 +22,7 @@ import FastQr.Props.C02
 import FastQr.Props.C08
 import FastQr.Props.C15
 import FastQr.Model.Build
-import FastQr.Finite.TablesFormat
+import FastQr.Finite.TablesFormatWord
 import FastQr.Proofs.RoundTrip
 
 namespace FastQr.Props.C01
@@ -56,12 +56,6 @@ theorem C01_roundtrip_auto (inp : List Nat) (o : Opts) (b : Built) (hb : Spec.Is
     ∃ r, Decode.decode ⟨b.qr.n, b.qr.cells⟩ (Regions.regionMap b.version) = .ok r ∧
       r.parsed = some ⟨b.mode, inp⟩ ∧ r.ecl = b.ecl ∧ r.mask = b.mask ∧ r.version = b.version :=
   C01_roundtrip inp o b hb ho (by rw [hauto]; exact C09.C09_never_rejects inp hb) h
-
-/-- … and the builder does return a symbol (never an error, never a trap) whenever some version can
-hold the input: C05_build + C10_total; so the round trip is not vacuous -/
-theorem C01_nonvacuous (inp : List Nat) (o : Opts) (hb : Spec.IsBytes inp) (ho : LegalOpts o)
-    (halpha : Spec.alphabetOK (o.mode.getD (bestEncoding inp)) inp = true) :
-    (build inp o).traps = [] := Total.build_total inp o hb ho halpha
 
 theorem C01_format_identifies : formatInjOk = true := formatInjOk_true
 
